@@ -7,7 +7,7 @@ use super::wire;
 use super::{ConnSpec, Drv, Rng, Sp};
 use crate::parse::{PropSpec, is_ignored};
 
-pub const STRATEGIES: [&str; 15] = [
+pub const STRATEGIES: [&str; 16] = [
     "drain",
     "fill-q1",
     "fill-q2",
@@ -23,6 +23,7 @@ pub const STRATEGIES: [&str; 15] = [
     "cancel-drain",
     "rm2-fill-q2-rc10",
     "cancel-at-flush",
+    "partial-reads",
 ];
 
 /// Directives a continuation may add (approximately).
@@ -407,6 +408,37 @@ fn continuation(d: &mut Drv, strategy: &str) {
             }
             d.x("cancel");
             settle(d);
+        }
+        "partial-reads" => {
+            // Two inbound packets: a QoS 1 PUBLISH with an 8-byte payload and, if something is
+            // in flight, its SUBACK / PUBACK.
+            let mut stream = Vec::new();
+            if let Some(o) = d.broker.inbound(&mut d.rng, 1, Some(vec![]), Some(b"8 bytes!".to_vec())) {
+                *d.stats.broker.entry(o.kind.to_string()).or_insert(0) += 1;
+                stream.extend(o.bytes);
+            }
+            if let Some(i) = d.broker.owed().iter().position(|o| o.kind == "suback" || o.kind == "puback") {
+                stream.extend(d.broker.deliver(i).bytes);
+            }
+            // Consume what the base left unread, so that the first packet read is ours.
+            settle(d);
+            settle(d);
+            d.x("cancel");
+            d.rx(&stream);
+            d.x("poll");
+            for _ in 0..4 {
+                if d.suspended() {
+                    d.x("d 1");
+                }
+            }
+            d.x("cancel");
+            d.x("poll");
+            for _ in 0..40 {
+                if !d.suspended() || d.starved {
+                    break;
+                }
+                d.x("d 2");
+            }
         }
         "idle-ticks" => idle_ticks(d, start),
         "inbound" => inbound(d),
